@@ -134,7 +134,13 @@ impl<'a> Interp<'a> {
                 let a = sel_small(op.a, 255);
                 let n = sel_small(op.b, 256 - a);
                 tr!(self, "s{} = Bytes::from_static(&POOL[{}..{}])", j, a, a + n);
-                let (r, d) = call(|| Bytes::from_static(&POOL[a..a + n]));
+                // the From impls for 'static data are thin wrappers of from_static
+                let as_str = std::str::from_utf8(&POOL[a..a + n]).ok();
+                let (r, d) = match (op.c % 3, as_str) {
+                    (1, _) => call(|| Bytes::from(&POOL[a..a + n])),
+                    (2, Some(st)) => call(|| Bytes::from(st)),
+                    _ => call(|| Bytes::from_static(&POOL[a..a + n])),
+                };
                 let b = r.expect("from_static cannot panic");
                 let ok = b.as_ptr() == POOL[a..].as_ptr();
                 self.c07("from_static", ok, &d, "result does not point at the static slice".to_string());
@@ -146,7 +152,7 @@ impl<'a> Interp<'a> {
             k::NewEmpty => {
                 let Some(j) = self.free_slot() else { return self.skip(kk) };
                 tr!(self, "s{} = Bytes::new()", j);
-                let (r, _) = call(Bytes::new);
+                let (r, _) = if op.c % 2 == 1 { call(Bytes::default) } else { call(Bytes::new) };
                 let m = self.new_model(Vec::new(), Origin::Static, 0);
                 self.put_b(j, r.unwrap(), m);
                 self.st.repr[0] += 1;
@@ -272,8 +278,13 @@ impl<'a> Interp<'a> {
                 let (r, _) = match kk {
                     k::MutWithCap => call(|| BytesMut::with_capacity(n)),
                     k::MutZeroed => call(|| BytesMut::zeroed(n)),
-                    k::MutFromSlice => call(|| BytesMut::from(&data[..])),
+                    k::MutFromSlice => match (op.b % 2, std::str::from_utf8(&data)) {
+                        (1, Ok(st)) => call(|| BytesMut::from(st)),
+                        _ => call(|| BytesMut::from(&data[..])),
+                    },
+                    k::MutFromIter if op.b % 2 == 1 => call(|| data.iter().collect::<BytesMut>()),
                     k::MutFromIter => call(|| data.iter().copied().collect::<BytesMut>()),
+                    _ if op.c % 2 == 1 => call(BytesMut::default),
                     _ => call(BytesMut::new),
                 };
                 let b = match r {
@@ -440,7 +451,16 @@ impl<'a> Interp<'a> {
                 if let Origin::Owner(_) = m.origin {
                     self.flags.owner_conv = true;
                 }
-                let (r, _) = if kk == k::BIntoVec { call(move || Vec::from(b)) } else { call(move || b.into_iter().collect::<Vec<u8>>()) };
+                let (r, _) = if kk == k::BIntoVec {
+                    call(move || Vec::from(b))
+                } else {
+                    call(move || {
+                        let by_ref: Vec<u8> = (&b).into_iter().copied().collect();
+                        let v = b.into_iter().collect::<Vec<u8>>();
+                        assert!(by_ref == v, "harness-visible: (&Bytes).into_iter() and Bytes::into_iter() disagree");
+                        v
+                    })
+                };
                 match r {
                     Ok(v) => {
                         if v[..] != m.bytes[..] {
@@ -585,7 +605,7 @@ impl<'a> Interp<'a> {
                 self.c07_src(i, m.depth);
                 let shared = self.shares_block(i);
                 let off = self.at_offset(i);
-                let (r, d) = call(move || b.freeze());
+                let (r, d) = if op.b % 2 == 1 { call(move || Bytes::from(b)) } else { call(move || b.freeze()) };
                 match r {
                     Ok(f) => {
                         if len > 0 {
@@ -613,7 +633,16 @@ impl<'a> Interp<'a> {
                     self.flags.transition = true;
                     self.flags.recomputed_free = true;
                 }
-                let (r, _) = if kk == k::MIntoVec { call(move || Vec::from(b)) } else { call(move || b.into_iter().collect::<Vec<u8>>()) };
+                let (r, _) = if kk == k::MIntoVec {
+                    call(move || Vec::from(b))
+                } else {
+                    call(move || {
+                        let by_ref: Vec<u8> = (&b).into_iter().copied().collect();
+                        let v = b.into_iter().collect::<Vec<u8>>();
+                        assert!(by_ref == v, "harness-visible: (&BytesMut).into_iter() and BytesMut::into_iter() disagree");
+                        v
+                    })
+                };
                 match r {
                     Ok(v) => {
                         if v[..] != m.bytes[..] {
@@ -641,6 +670,8 @@ impl<'a> Interp<'a> {
                     b[idx] = val;
                     // a second route to the same bytes
                     let s: &mut [u8] = b.as_mut();
+                    s[idx] = val;
+                    let s: &mut [u8] = std::borrow::BorrowMut::borrow_mut(&mut b);
                     s[idx] = val;
                 });
                 m.bytes[idx] = val;
